@@ -359,16 +359,16 @@ Example C20_accepted_iff_nonvacuous :
 Proof.
   cbv zeta. split; [|split; [|split]].
   - split; [|split; vm_compute; reflexivity].
-    constructor; [vm_compute; discriminate|].
+    constructor; [vm_compute; discriminate|intros ? E; injection E as <-; vm_compute; exact I|].
     apply Forall_cons; [|apply Forall_cons; [|apply Forall_nil]]; cbn [snd]; intros m E; injection E as <-;
-      (constructor; [vm_compute; discriminate|apply Forall_nil]).
+      (constructor; [vm_compute; discriminate|intros ? E; injection E as <-; vm_compute; exact I|apply Forall_nil]).
   - split; [vm_compute; reflexivity|]. split; [|vm_compute; reflexivity].
     apply (Describes (str "x") [] (Some [str "string"]) (mkDetails (str "uint256") [] false None) [] None []).
     + reflexivity.
     + constructor.
     + eexists. vm_compute. reflexivity.
   - split; [vm_compute; reflexivity|]. split; [|vm_compute; reflexivity].
-    constructor; [vm_compute; discriminate|apply Forall_nil].
+    constructor; [vm_compute; discriminate|intros ? E; injection E as <-; vm_compute; exact I|apply Forall_nil].
   - split; vm_compute; reflexivity.
 Qed.
 
